@@ -106,7 +106,8 @@ static void prop(Tape &t, Ctx &c) {
             }
             if (!mv) break;
         }
-        if (!(w0.V.hs_complete() && w0.P.hs_complete())) throw Discard{};
+        // no adversarial step has happened yet: a priming handshake that fails is a defect (or a harness fault), not a case to skip
+        VF_CHECK(w0.V.hs_complete() && w0.P.hs_complete(), "harness-priming-handshake-failed", "priming session for a resumed scenario did not complete");
         // TLS 1.3 tickets arrive after the handshake; let the client read them
     }
 
